@@ -24,8 +24,9 @@ def _setup_jax(env):
 class Collector:
   """Runs check(case), never lets a failure escape, buckets failures."""
 
-  def __init__(self, mod, budget_s, max_samples=6):
+  def __init__(self, mod, budget_s, max_samples=6, trace_path=None):
     self.mod = mod
+    self.trace_path = trace_path      # last case handed to check(): lets the parent name a case that hangs
     self.t0 = time.time()
     self.budget_s = budget_s
     self.evaluations = 0
@@ -70,6 +71,12 @@ class Collector:
       self.skipped_budget += 1
       return None
     bucket = None
+    if self.trace_path:
+      try:
+        with open(self.trace_path, "w") as f:
+          f.write(core.canon(case))
+      except OSError:
+        pass
     try:
       res = self.mod.check(case)
       if record:
@@ -150,7 +157,8 @@ def run_task(task):
   if hasattr(mod, "worker_init"):
     mod.worker_init(task)
   shard = task["shard"]
-  col = Collector(mod, task["budget_s"])
+  col = Collector(mod, task["budget_s"],
+                  trace_path=task.get("trace_path") if getattr(mod, "TRACE_CASES", False) else None)
   t0 = time.time()
   exhaustive = False
   hyp_seed = task["seed"]
